@@ -1416,25 +1416,18 @@ def adversarial_worlds(rng, n_random):
             "resource": f"interface i {{ resource {n} {{ constructor(); m: func() -> u32; }} }}\nworld w {{ import i; export i; }}\n",
             "interface": f"interface {n} {{ f: func(a: string) -> u32; }}\nworld w {{ import {n}; export {n}; }}\n",
         }
-    IDENT_POS = ("field", "param", "case")        # positions spelled through to_c_ident without a namespace prefix
     # 1. keywords the table knows: must build in every position
     for kw in rng.sample(C_KEYWORDS_IN_TABLE, 3) + ["ret", "err", "new", "bool"]:
         for pos, body in positions(kw).items():
             add(f"kw-{kw}-{pos}", None, None, body, f"escaped keyword `{kw}` as {pos}")
-    # 2. keywords the table misses
+    # 2. keywords the table used to miss (repaired in /repo 89692d8): must build in every position
     for kw in ("restrict", "typeof"):
         for pos, body in positions(kw).items():
-            bad = pos in IDENT_POS
-            add(f"kwmiss-{kw}-{pos}", "c-keyword-not-escaped" if bad else None,
-                r"restrict requires|after 'typeof'|expected identifier|expected expression|expected member name" if bad else None,
-                body, f"C keyword `{kw}` (absent from to_c_ident) as {pos}")
-    # 3. upper-case spellings: looked up before case folding
+            add(f"kwmiss-{kw}-{pos}", None, None, body, f"C keyword `{kw}` as {pos}")
+    # 3. upper-case spellings (the table is consulted with the snake-cased name since 89692d8): must build
     for kw in rng.sample(["int", "char", "static", "const", "void", "if", "for", "struct", "return", "default"], 3):
         for pos, body in positions(kw.upper()).items():
-            bad = pos in IDENT_POS
-            add(f"kwupper-{kw}-{pos}", "c-keyword-after-case-folding" if bad else None,
-                r"expected|cannot combine|declaration does not declare|requires a|invalid|type specifier|storage class" if bad else None,
-                body, f"upper-case `{kw.upper()}` as {pos}")
+            add(f"kwupper-{kw}-{pos}", None, None, body, f"upper-case `{kw.upper()}` as {pos}")
     # 4. typedef names of <stdint.h>/<stddef.h> as parameter names
     for nm, ty in (("int8-t", "s8"), ("uint8-t", "u8"), ("uint32-t", "u32"), ("int64-t", "s64"), ("size-t", "list<u8>")):
         add(f"typedef-{nm}", "c-typedef-name-as-parameter", r"unknown type name|expected|not a function|redefinition|called object",
